@@ -1,6 +1,11 @@
 """Per-property check specifications for vcheck."""
 
-LIBGO = {"dir": "/repo/lib/go", "overlay": "libgo"}
+import os
+
+# The checks registered in MANIFEST.json always run against /repo. VERIF_REPO exists only so that
+# seedeval.py can evaluate a breaking change in a scratch worktree without touching /repo.
+REPO = os.environ.get("VERIF_REPO", "/repo")
+LIBGO = {"dir": REPO + "/lib/go", "overlay": "libgo"}
 
 
 def lengths(n):
@@ -24,6 +29,8 @@ SPECS["C05"] = {
         {"name": "VerifC05_FramedStream", "native": False, "quick": {"params": lengths(16), "procs": 4}, "thorough": {"params": lengths(24), "procs": 8}},
         {"name": "VerifC05_NatsServerFrame", "native": False, "quick": {"params": lengths(16), "procs": 4}, "thorough": {"params": lengths(24), "procs": 8}},
         {"name": "VerifC05_SubscriberCallback", "quick": {"params": lengths(16), "procs": 4}, "thorough": {"params": lengths(24), "procs": 8}},
+        {"name": "VerifC14_SurvivesFailedReply", "native": False, "quick": {"params": [0, 1, 2, 3, 4], "procs": 5}, "thorough": {"params": [0, 1, 2, 3, 4], "procs": 5},
+         "expect_reach": ["end", "first-answered", "first-unanswerable"]},
         {"name": "VerifC05_MutatedRequest", "native": False, "flags": ["-max-concretize", "600", "-duration-witness"], "quick": {"params": list(range(0, 112, 2)), "bound": 4, "procs": 8}, "thorough": {"params": list(range(0, 112)), "bound": 4, "procs": 14},},
         {"name": "VerifC05_MutatedPublish", "flags": ["-max-concretize", "600"], "quick": {"params": list(range(0, 116, 2)), "bound": 4, "procs": 8}, "thorough": {"params": list(range(0, 116)), "bound": 4, "procs": 14}},
     ])],
@@ -37,14 +44,18 @@ SPECS["C05"] = {
 SPECS["C04"] = {
     "level": "model_checking",
     "groups": [dict(LIBGO, entries=[
-        {"name": "VerifC04_RoundTrip", "quick": {"params": [0, 1, 2], "bound": 2}, "thorough": {"params": [0, 1, 2, 3], "bound": 3, "procs": 4},
+        {"name": "VerifC04_RoundTrip", "quick": {"params": [0, 1, 2], "bound": 2}, "thorough": {"params": [0, 1, 2], "bound": 3, "procs": 3},
+         "expect_reach": ["end", "distinct-names", "collapsed-names"]},
+        {"name": "VerifC04_RoundTrip", "tiers": ["thorough"], "thorough": {"params": [3], "bound": 2, "flags": ["-par", "6", "-max-paths", "2000000"]},
          "expect_reach": ["end", "distinct-names", "collapsed-names"]},
         {"name": "VerifC04_AddHeaders", "quick": {"params": [0, 1, 2], "bound": 1}, "thorough": {"params": [0, 1, 2], "bound": 2}},
+        {"name": "VerifC04_WireToContext", "quick": {"params": [0, 1, 2], "bound": 2}, "thorough": {"params": [0, 1, 2], "bound": 3},
+         "expect_reach": ["end", "with-cid", "with-timeout"]},
     ])],
     "level_text": "Bounded symbolic model checking of the real Go codec (marshalHeaders/calculateHeaderSize via FProtocol.writeHeader, readHeader/unmarshalHeaders/readPairs, getHeadersFromFrame, unmarshalFrame, addHeadersToFrame): for every map of up to n headers with arbitrary byte content and every iteration order of the Go map (independently in the size and the write loop) the bytes equal the documented v0 layout as judged by an independent reference reader, both readers return the identical map, and the payload is untouched. Outside: the Python codec (not reachable from go/ssa), more headers / longer strings than the bound.",
     "level_note": "Trusted: go/ssa, gose interpreter (path witnesses re-run natively), z3; the reference reader in the harness is the oracle for documentation/protocol.md. Stubs: fmt, logrus.",
     "bounds": {"quick": "n <= 2 headers, names/values 0..2 bytes (AddHeaders: 0..1), payload 0..2 bytes, all iteration orders",
-               "thorough": "n <= 3 headers, names/values 0..3 bytes (AddHeaders: n <= 2, 0..2), payload 0..2 bytes"},
+               "thorough": "n <= 2 headers with names/values 0..3 bytes and n = 3 headers with names/values 0..2 bytes (AddHeaders: n <= 2, 0..2), payload 0..2 bytes"},
     "assumptions": ["Python runtime codec and contrib/frame_parser.py are outside the claim"],
 }
 
@@ -63,14 +74,17 @@ SPECS["C09"] = {
 SPECS["C12"] = {
     "level": "model_checking",
     "groups": [dict(LIBGO, entries=[
-        {"name": "VerifC12_BufferLimit", "quick": {"params": [1, 2, 3], "bound": 2}, "thorough": {"params": [1, 2, 3, 4], "bound": 5, "procs": 4}, "expect_reach": ["end", "accepted", "rejected"]},
+        {"name": "VerifC12_BufferLimit", "quick": {"params": [1, 2, 3], "bound": 2}, "thorough": {"params": [1, 2, 3], "bound": 5, "procs": 3}, "expect_reach": ["end", "accepted", "rejected"]},
+        {"name": "VerifC12_BufferLimit", "tiers": ["thorough"], "thorough": {"params": [4], "bound": 3, "flags": ["-par", "6", "-max-paths", "3000000"]}, "expect_reach": ["end", "accepted", "rejected"]},
         {"name": "VerifC12_PrepareMessage", "quick": {"params": [0, 1, 2], "bound": 3}, "thorough": {"params": [0, 1, 2], "bound": 12}, "expect_reach": ["end", "fits", "too-large"]},
         {"name": "VerifC12_HTTPResponseLimit", "quick": {"params": [0, 1], "bound": 1}, "thorough": {"params": [0, 1, 2], "bound": 2}, "expect_reach": ["end", "fits", "too-large"]},
         {"name": "VerifC12_SendReply", "quick": {"params": [0, 1, 2], "bound": 3}, "thorough": {"params": [0, 1, 2], "bound": 12}, "expect_reach": ["end", "fits", "too-large"]},
+        {"name": "VerifC14_SurvivesFailedReply", "native": False, "quick": {"params": [0, 1, 2, 3, 4], "procs": 5}, "thorough": {"params": [0, 1, 2, 3, 4], "procs": 5},
+         "expect_reach": ["end", "first-answered", "first-unanswerable"]},
     ])],
     "level_text": "Bounded symbolic model checking of the real limit enforcement: (a) TMemoryOutputBuffer driven through thrift.TRichTransport (Write, WriteString, WriteByte) with an arbitrary limit 0..40 and up to 3 (4) writes of arbitrary length: a write is rejected iff it would exceed the limit, with REQUEST_TOO_LARGE, buffer reset, prefix exact; (b) FStandardClient.prepareMessage with the real TBinaryProtocol and a message whose large string is first/middle/last, limit around the exact framed size (computed independently): fails iff over, and the next in-limit message succeeds; (c) FBaseProcessorFunction.SendReply with an oversize result produces exactly one RESPONSE_TOO_LARGE exception which FStandardClient.processReply maps to transport error 101, in-limit replies arrive intact. (d) the HTTP server handler (NewFrugalHandlerFunc, real base64 codec and FBaseProcessor) called 2..3 (4) times in a row with the client-requested limit at size-1 / size / size+1 / 1: 413 iff the response exceeds the limit, otherwise the exact frame, and every later request is judged on its own. Outside: the request-side checks of the NATS/STOMP/HTTP client transports, other runtimes.",
     "level_note": "Trusted: go/ssa, gose interpreter, z3; thrift's TBinaryProtocol and bytes.Buffer are executed from their real SSA. Stubs: fmt, logrus, context (engine model), sync.",
-    "bounds": {"quick": "limit 0..40 symbolic, <= 3 writes of 0..2 bytes; string sizes within 3 of the boundary", "thorough": "<= 4 writes of 0..5 bytes; string sizes within 12 of the boundary"},
+    "bounds": {"quick": "limit 0..40 symbolic, <= 3 writes of 0..2 bytes; string sizes within 3 of the boundary", "thorough": "<= 3 writes of 0..5 bytes and 4 writes of 0..3 bytes; string sizes within 12 of the boundary"},
     "assumptions": ["(c): the limit admits the RESPONSE_TOO_LARGE reply itself (>= 160 bytes)"],
 }
 
@@ -83,6 +97,7 @@ SPECS["C01"] = {
          "expect_reach": ["end", "duplicate", "registered", "unregistered", "delivered", "slot-full", "unknown", "not-a-number"]},
         {"name": "VerifC01_NatsRouting", "native": False, "quick": {"params": [0, 1]}, "thorough": {"params": [0, 1]},
          "expect_reach": ["end", "frame-delivered", "foreign-subject", "503-delivered"]},
+        {"name": "VerifC01_ConcurrentCalls", "native": False, "quick": {"params": [0], "flags": ["-preempt", "1"]}, "thorough": {"params": [0], "flags": ["-preempt", "2"]}},
         {"name": "VerifC01_SequentialReuse", "native": False, "quick": {"params": [0, 1, 2], "flags": ["-preempt", "2"]}, "thorough": {"params": [0, 1, 2, 3], "flags": ["-preempt", "3"]}},
         {"name": "VerifC01_AdapterCorrelation", "native": False, "quick": {"params": [0, 1, 2], "flags": ["-preempt", "1"]},
          "thorough": {"params": [0, 1, 2, 3], "flags": ["-preempt", "2", "-par", "4"], "procs": 4}, "flags": [],
@@ -112,7 +127,7 @@ SPECS["C17"] = {
     "groups": [dict(LIBGO, entries=[
         {"name": "VerifC17_OpIDsUnique", "native": False, "quick": {"params": [0], "flags": ["-preempt", "2"]}, "thorough": {"params": [0, 1], "flags": ["-preempt", "2", "-par", "8"]}},
         {"name": "VerifC17_SharedContext", "native": False, "quick": {"params": [0], "flags": ["-preempt", "2"]}, "thorough": {"params": [0], "flags": ["-preempt", "3"]}, "expect_reach": ["end", "two-writers"]},
-        {"name": "VerifC17_CloneIndependent", "quick": {"params": [0, 1], "bound": 1}, "thorough": {"params": [0, 1], "bound": 2}, "expect_reach": ["end", "empty-response-headers"]},
+        {"name": "VerifC17_CloneIndependent", "quick": {"params": [0, 1, 2], "bound": 1}, "thorough": {"params": [0, 1, 2], "bound": 2}, "expect_reach": ["end", "empty-response-headers", "foreign-context"]},
     ])],
     "level_text": "(a) From an ARBITRARY value of the op-id counter (symbolic uint64), 2 (3) goroutines that create / Clone() / frugal.Clone() contexts concurrently plus one sequential context: all op ids pairwise different and different from every id issued before (decided on the uint64 level; strconv format/parse of the symbolic id is an injective tag), and the counter is only touched through sync/atomic (watched cell). (b) Two goroutines applying any pair of FContext operations to one shared context: every access to the three maps holds the context mutex in the right mode (lock-discipline monitor), last-writer-wins. (c) Clone (method and package function): starts equal except for a fresh op id, and a mutation of either side (request/response header, timeout, ephemeral property) is invisible to the other. Outside: >3 goroutines; plain data races on fields other than the watched counter and guarded maps are not monitored.",
     "level_note": "Trusted: go/ssa, gose interpreter and scheduler model, z3. " + SCHED_NOTE,
@@ -162,6 +177,7 @@ SPECS["C07"] = {
          "expect_reach": ["end", "valid", "short-frame", "bad-header", "other-op", "foreign-topic"]},
         {"name": "VerifC07_TwoSubscribers", "native": False, "quick": {"params": [0, 1], "flags": ["-preempt", "1"]}, "thorough": {"params": [0, 1], "flags": ["-preempt", "2", "-par", "4"]},
          "expect_reach": ["end", "builder-made"]},
+        {"name": "VerifC07_ConcurrentPublish", "native": False, "quick": {"params": [0], "flags": ["-preempt", "1"]}, "thorough": {"params": [0], "flags": ["-preempt", "3"]}},
         {"name": "VerifC07_StompSub", "native": False, "quick": {"params": [1, 2], "bound": 1, "flags": ["-preempt", "1"]},
          "thorough": {"params": [1, 2, 3], "bound": 2, "flags": ["-preempt", "1", "-par", "5"], "procs": 3},
          "expect_reach": ["end", "valid", "short-frame", "bad-header", "other-op", "handler-fails"]},
@@ -199,6 +215,10 @@ SPECS["C14"] = {
         {"name": "VerifC14_SimpleServerLoop", "native": False, "quick": {"params": [0, 1, 2, 3, 4], "flags": ["-preempt", "1"], "procs": 5}, "thorough": {"params": [0, 1, 2, 3, 4], "flags": ["-preempt", "2"], "procs": 5},
          "expect_reach": ["end"]},
         {"name": "VerifC14_ConcurrentReplies", "native": False, "quick": {"params": [0, 1, 4], "flags": ["-preempt", "1"], "procs": 3}, "thorough": {"params": [0, 1, 2, 3, 4], "flags": ["-preempt", "2", "-par", "2"], "procs": 5}},
+        {"name": "VerifC14_NatsServerReplies", "native": False, "quick": {"params": [0, 1, 2, 3, 4], "bound": 0, "procs": 5}, "thorough": {"params": [0, 1, 2, 3, 4], "bound": 1, "procs": 5}},
+        {"name": "VerifC14_HTTPReplies", "quick": {"params": [0, 1, 2, 3, 4], "procs": 5}, "thorough": {"params": [0, 1, 2, 3, 4], "procs": 5}},
+        {"name": "VerifC14_SurvivesFailedReply", "native": False, "quick": {"params": [0, 1, 2, 3, 4], "procs": 5}, "thorough": {"params": [0, 1, 2, 3, 4], "procs": 5},
+         "expect_reach": ["end", "first-answered", "first-unanswerable"]},
     ])],
     "level_text": "Bounded symbolic execution of the real server reply path (FBaseProcessor.Process, FBaseProcessorFunction.SendReply/SendError/sendError/trapError, Method.Invoke through the reflect boundary, FSimpleServer.accept with TFramedTransport) with processor functions written exactly in the shape the generator emits (two-way 'ping' with a declared exception, oneway 'fire') and the real TBinaryProtocol: for every request kind (known method, unknown method name of arbitrary bytes, arguments truncated at 1..6 bytes from the end, wrong-typed argument field, oneway) x handler outcome (value, declared exception, undeclared error, TApplicationException with any type id 0..200) the output is exactly one well-formed frame (judged by an independent reference reader) carrying the request's op id and correlation id and the right REPLY / EXCEPTION kind (UNKNOWN_METHOD, PROTOCOL_ERROR, INTERNAL_ERROR, the handler's own type), nothing for a successful oneway; the handler runs exactly once with the sent argument; a following request on the same processor / the same connection loop is answered correctly; with two requests processed concurrently on a shared output protocol every write and flush happens under the write mutex (lock-discipline monitor). Outside: the generated processor code itself (hand-written equivalent here), HTTP/NATS server plumbing (C05/C20), compact/JSON protocols.",
     "level_note": "Trusted: go/ssa, gose interpreter and scheduler model, z3; reflect is an engine boundary (ValueOf/Call/Interface/MethodByName implemented by the engine). " + SCHED_NOTE,
@@ -206,7 +226,7 @@ SPECS["C14"] = {
     "assumptions": [],
 }
 
-PARSER = {"dir": "/repo/compiler/parser", "overlay": "parser"}
+PARSER = {"dir": REPO + "/compiler/parser", "overlay": "parser"}
 
 SPECS["C16"] = {
     "level": "model_checking",
@@ -235,7 +255,8 @@ SPECS["C18"] = {
         {"name": "VerifC18_Fields", "native": False, "quick": {"params": [0, 1, 2, 3, 4], "bound": 0, "procs": 5}, "thorough": {"params": list(range(20)), "bound": 0, "procs": 10, "timeout": 5000}, "expect_reach": ["end", "must-fail", "must-pass", "unspecified"]},
         {"name": "VerifC18_FieldsNested", "native": False, "tiers": ["thorough"], "thorough": {"params": [0, 1, 2, 3, 4], "bound": 1, "procs": 5, "timeout": 5000}, "expect_reach": ["end", "must-fail", "must-pass"]},
         {"name": "VerifC18_TypedefShapes", "native": False, "quick": {"params": [0, 1, 2, 3], "bound": 0, "procs": 2}, "thorough": {"params": [0, 1, 2, 3], "bound": 0, "procs": 2}, "expect_reach": ["end", "must-fail", "must-pass"]},
-        {"name": "VerifC18_Services", "native": False, "quick": {"params": [0, 1], "bound": 0, "procs": 2, "flags": ["-par", "3"]}, "thorough": {"params": [0, 1], "bound": 0, "procs": 2, "flags": ["-par", "3"]}, "expect_reach": ["end", "must-fail", "must-pass", "unspecified"]},
+        {"name": "VerifC18_Services", "native": False, "quick": {"params": [0, 1, 2, 3, 4, 5], "bound": 0, "procs": 6}, "thorough": {"params": [0, 1, 2, 3, 4, 5], "bound": 0, "procs": 6, "flags": ["-par", "2"]}, "expect_reach": ["end", "must-fail", "must-pass", "unspecified"]},
+        {"name": "VerifC18_AddedField", "native": False, "quick": {"params": [0, 1, 2], "bound": 0, "procs": 3}, "thorough": {"params": [0, 1, 2], "bound": 0, "procs": 3}, "expect_reach": ["end", "must-fail", "must-pass", "added-required"]},
         {"name": "VerifC18_EnumsScopes", "native": False, "quick": {"params": [0, 1, 2], "bound": 0, "procs": 3, "flags": ["-par", "2"]}, "thorough": {"params": [0, 1, 2], "bound": 0, "procs": 3, "flags": ["-par", "2"]}, "expect_reach": ["end", "must-fail", "must-pass", "unspecified"]},
     ])],
     "level_text": "Bounded symbolic execution of the real Auditor.Audit (checkScopes, checkScopePrefix, normalizeScopePrefix, checkOperations, checkNamespaces, checkConstants, checkEnums, checkEnumValues, checkStructLike, checkServices, checkServiceMethods, checkFields, makeFieldsMap, checkType, Frugal.UnderlyingType) on PAIRS OF MODELS built by the harness (ParseFrugal is redirected; the text-level audit goes through the PEG parser and is outside): (1) field lists of a struct / exception / union / method arguments / throws clause with symbolic field ids (1..3), symbolic requiredness, presence of each field, type from {two scalars, a typedef whose meaning differs between old and new, a struct} (thorough: list/map nesting one level, a typedef that stands for a container, and a second field on either side); (1b) a typedef standing for a scalar, a list or a map whose element types differ between old and new, used as field / return / argument element / operation type; (2) services: service kept/removed, method kept/removed, oneway flags, return types incl. void, extends in {none, Base, Other}, throws present/absent; (3) enums with symbolic value numbers, scopes with 6 prefixes x kept/removed operation x operation type, namespaces/constants. A three-valued reference oracle written from the statement decides MUST-FAIL (removed/retyped field, argument, method, operation, service, scope, struct; requiredness change; added required field; removed enum value; changed prefix modulo variable names; oneway change; changed or removed base; exception-set change on a void method) / MUST-PASS (identical, renames, added optional/default fields, renamed prefix variables, namespace/constant changes, additions) / UNSPECIFIED (removing an optional field, adding 'extends', removing a whole enum, exception-set change on a non-void method: counted, not asserted). Outside: audit of IDL text (parser), includes across files, deeper nesting.",
@@ -244,8 +265,8 @@ SPECS["C18"] = {
     "assumptions": [],
 }
 
-GOLANG = {"dir": "/repo/compiler/generator/golang", "overlay": "golang"}
-DARTLANG = {"dir": "/repo/compiler/generator/dartlang", "overlay": "dartlang"}
+GOLANG = {"dir": REPO + "/compiler/generator/golang", "overlay": "golang"}
+DARTLANG = {"dir": REPO + "/compiler/generator/dartlang", "overlay": "dartlang"}
 
 SPECS["C11"] = {
     "level": "model_checking",
@@ -281,11 +302,16 @@ SPECS["C02"] = {
     "level": "model_checking",
     "custom": "c02",
     "groups": [],
-    "quick_programs": ["c02_basic.frugal"],
+    "quick_programs": ["c02_base.frugal", "c02_basic.frugal", "c02_nested.frugal"],
+    "entries_only": {"quick": {"c02_nested": ["VerifC02_Level", "VerifC02_Label"]}},
     "elems": {"quick": 1, "thorough": 2},
+    "slim_programs": {"quick": ["c02_basic.frugal"], "thorough": ["c02_basic.frugal"]},
+    "slim_entries": {"quick": ["VerifC02_Inner", "VerifC02_Scalars", "VerifC02_Shades", "VerifC02_Choice", "VerifC02_Oops", "VerifC02_Strict"]},
+    "elems_override": {"thorough": {"VerifC02_Containers": 1, "VerifC02_Shape": 1, "VerifC02_Deep": 1, "VerifC02_Either": 1, "VerifC02_Child_build_result": 1, "VerifC02_Child_points_args": 1}},
+    "wall": {"quick": 240, "thorough": 900},
     "level_text": "Bounded symbolic model checking of GENERATED code: for every program of the catalogue /verif/catalogue/c02_*.frugal the real compiler (built from /repo at check time) emits Go, and gose executes the emitted Read and Write of every struct, union, exception and every service args/result struct against a scripted + recording thrift.TProtocol: a value tree with symbolic scalars/strings/binaries, symbolic presence of every optional field, symbolic union selector and containers of 0..1 (thorough 0..2) elements is encoded as a conforming event stream (fields in declaration or reversed order; optionally one unknown field of symbolic id and one of four types anywhere; or one required field missing), fed to the generated Read, and the resulting object is written by the generated Write: Read must consume the encoding step by step and accept it (reject it when a required field is missing), skip exactly the unknown field with its wire type, and Write must emit exactly the declared field ids, wire types, field and struct names and the decoded values, required and default fields always, optional fields iff set, one field for a union; two-element maps/sets in either order. The oracle model (ids, wire types after typedef/enum/include resolution, requiredness, names) is read from the IDL text by idlmini.py, independently of the generator. Because the generated code only talks to the TProtocol interface the result is protocol independent; thrift's binary/compact/JSON implementations are trusted. Outside: programs beyond the catalogue (programs are enumerated, values symbolic), containers with more elements, default values of absent default-requiredness fields, doubles other than three constants.",
     "level_note": "Trusted: go/ssa, gose interpreter, z3; idlmini.py as the oracle's IDL reader; the scripted TProtocol in c02_harness.go.tmpl.",
-    "bounds": {"quick": "catalogue program c02_basic; containers 0..1 elements; strings/binaries 0..2 bytes", "thorough": "all catalogue programs; containers 0..2 elements"},
+    "bounds": {"quick": "catalogue programs c02_basic (all types; the six data types again with the `slim` generator option), c02_base, and of c02_nested (generated recursively with its include, -r) the types Level and Label (c02_base is checked on the output of that recursive run); containers 0..1 elements; strings/binaries 0..2 bytes", "thorough": "all catalogue programs; containers 0..2 elements (0..1 for the six types with nested or several containers: Containers, Shape, Deep, Either, Child.build result, Child.points args, whose path count exceeds the wall limit at 2)"},
     "assumptions": ["catalogue IDL files follow the one-field-per-line layout idlmini.py reads"],
 }
 
@@ -299,6 +325,8 @@ SPECS["C03"] = {
              "expect_reach": ["end", "value", "declared", "undeclared", "app-exception", "nil-value"]},
             {"name": "VerifC03_VoidThrows", "quick": {"params": [0], "bound": 1}, "thorough": {"params": [0], "bound": 2}, "expect_reach": ["end", "void-ok", "void-declared-1", "void-declared-2"]},
             {"name": "VerifC03_PingFire", "quick": {"params": [0, 1], "bound": 1}, "thorough": {"params": [0, 1], "bound": 2}, "expect_reach": ["end", "ping", "fire"]},
+            {"name": "VerifC03_ConcurrentCalls", "native": False, "flags": ["-preempt", "1"], "quick": {"params": [0]}, "thorough": {"params": [0], "flags": ["-preempt", "2"]}},
+            {"name": "VerifC03_Names", "quick": {"params": [0, 1, 2], "bound": 1}, "thorough": {"params": [0, 1, 2], "bound": 2}, "expect_reach": ["end", "out-of-order-ids"]},
         ]},
         {"program": "c02_nested", "includes": ["c02_base"], "pkg": "c02nested", "entries": [
             {"name": "VerifC03_Inherited", "quick": {"params": [0], "bound": 1}, "thorough": {"params": [0], "bound": 1}, "expect_reach": ["end", "denied", "built"]},
